@@ -13,7 +13,7 @@ RULE = ("seeded relative message soups: (a) ill-formed (unclosed, re-triggered, 
         "normalise_relative decides alternation / duration / repeated signatures / sound-if-paired, the driver decides "
         "idempotence on canonical events. Non-trivial: the output differs from the input.")
 PLAN = {"quick": {"cases": 8000, "jobs": 4, "timeout": 600},
-        "thorough": {"cases": 600000, "jobs": 16, "timeout": 3000, "budget_s": 420}}
+        "thorough": {"cases": 2000000, "jobs": 16, "timeout": 3000, "budget_s": 360}}
 FLOORS = {"quick": {"normalise.alternation.armed": 8000, "normalise.sound_if_paired.armed": 2500, "c07.unclosed_input": 800,
                     "c07.orphan_input": 800},
           "thorough": {"normalise.alternation.armed": 200000, "normalise.sound_if_paired.armed": 60000}}
